@@ -389,7 +389,38 @@ def plan_C06(c):
         calls.append({'ev': 'parse', 't': 1, 'form': forms[i % 4], 'radix': 10, 'bs': bs})
     run_vectors(c, calls, 'strings')
     g_parser_paths(c)
+    g_parse_scaling(c)
     v(c, 'c06', 3000, 80000)
+
+
+def g_parse_scaling(c):
+    """literals whose digits are a boundary coefficient and whose net exponent runs over the whole range: (1) the scaling
+    bounds floor(MAX/10^k) + {-1, 0, 1, 2} with net exponent k (the product sits on the edge of the coefficient range) for
+    every k, (2) machine-word boundaries (2^32, 2^53, 2^63, 2^64, 2^96, 10^19 and neighbours) with every net exponent -20..40;
+    each in four spellings (sign, exponent sign / case, a fraction point moved into the digits, leading zeros)."""
+    MAXC = 2**127 - 1
+    forms = ['from_str', 'try_from_str', 'try_from_string', 'from_str_radix']
+    cases = []
+    for k in range(0, 39):
+        for d in (-1, 0, 1, 2):
+            cases.append((MAXC // 10**k + d, k))
+    words = [2**32 - 1, 2**32, 2**53, 2**53 + 1, 2**63 - 1, 2**63, 2**63 + 1, 2**64 - 1, 2**64, 2**64 + 1, 2**96, 10**19 - 1, 10**19, 10**19 + 1,
+             17014118346046923173, 17014118346046923174, 2**127 - 1, 2**127]
+    for w in words:
+        for e in range(-20, 41):
+            cases.append((w, e))
+    calls = []
+    for i, (cv, e) in enumerate(cases):
+        ds = str(cv)
+        sp = ['%se%d' % (ds, e), '-%sE%+d' % (ds, e), '+000%se%d' % (ds, e)]
+        for j in sorted({1, len(ds) // 2, len(ds) - 1} - {0}):
+            if j < len(ds):
+                sp.append('%s.%se%d' % (ds[:-j], ds[-j:], e + j))       # same value, fraction point inside the digits
+        if e == 0:
+            sp.append(ds)
+        for k2, lit in enumerate(sp):
+            calls.append({'ev': 'parse', 't': 1, 'form': forms[(i + k2) % 4], 'radix': 10, 'bs': list(lit.encode())})
+    run_vectors(c, calls, 'parse-scaling')
 
 
 def g_parser_paths(c):
@@ -637,7 +668,7 @@ def plan_C19(c):
         scheds = c.generate('MC_Modes', prefix='SCHED', cfg=cfg)
         replay_schedules(c, scheds, cfg)
     # V: free-running threads, internal mode reads (hook) gate
-    v(c, 'threads:3:0', 6000, 60000, chunks=8)
+    v(c, 'threads:3:0', 24000, 120000, chunks=8)
     if c.tier != 'quick':
         v(c, 'threads:15:0', 6000, 200000, chunks=8)
 
@@ -800,16 +831,18 @@ def plan_C18(c):
         mac = compile_lits(c, part)
         # the same text through from_str on the real crate
         calls = [{'ev': 'parse', 't': 1, 'form': 'from_str', 'radix': 10, 'bs': list(l.encode())} for l in part]
-        traces = c.exec_vectors(calls, 'lits%d' % b0, chunks=1)
-        rts = [json.loads(x) for x in open(traces[0]) if json.loads(x)['ev'] == 'parse']
-        assert len(rts) == len(part)
-        for i, l in enumerate(part):
-            if i in mac:
-                co, sc = mac[i]
-                m = {'k': 'ok', 's': (co > 0) - (co < 0), 'm': limbs(abs(co)), 'f': sc}
-            else:
-                m = {'k': 'cerr'}
-            events.append({'ev': 'lit', 't': 1, 'bs': list(l.encode()), 'text': l, 'mac': m, 'rt': rts[i]['out']})
+        # (debug and release builds of the runtime side: an unchecked operation that panics in one wraps in the other)
+        for prof in ('dev', 'release'):
+            traces = c.exec_vectors(calls, 'lits%d%s' % (b0, prof), chunks=1, profile=prof)
+            rts = [json.loads(x) for x in open(traces[0]) if json.loads(x)['ev'] == 'parse']
+            assert len(rts) == len(part)
+            for i, l in enumerate(part):
+                if i in mac:
+                    co, sc = mac[i]
+                    m = {'k': 'ok', 's': (co > 0) - (co < 0), 'm': limbs(abs(co)), 'f': sc}
+                else:
+                    m = {'k': 'cerr'}
+                events.append({'ev': 'lit', 't': 1, 'bs': list(l.encode()), 'text': l, 'mac': m, 'rt': rts[i]['out'], 'build': prof})
     nch = 8
     files = []
     per = (len(events) + nch - 1) // nch
